@@ -6,18 +6,27 @@
 // hand: a change that splits one atomic step into two (Load then Store instead
 // of LoadOrStore) automatically gets a scheduling point between the two.
 //
-// usage: autoyield <label> <in.go> <out.go>
+// With -names lock the rewritten operations are mutex acquisitions (Lock,
+// RLock) instead: a change that narrows or splits a critical section gets a
+// scheduling point at the new acquisition. Functions that run with a lock held
+// across their whole body can be excluded with -skip.
+//
+// usage: autoyield [-names atomic|lock] [-skip f1,f2] <label> <in.go> <out.go>
 package main
 
 import (
 	"bytes"
+	"flag"
 	"fmt"
 	"go/ast"
 	"go/format"
 	"go/parser"
 	"go/token"
 	"os"
+	"strings"
 )
+
+var lockNames = map[string]bool{"Lock": true, "RLock": true}
 
 var atomicNames = map[string]bool{
 	"Load": true, "Store": true, "LoadOrStore": true, "LoadAndDelete": true, "CompareAndSwap": true,
@@ -85,11 +94,23 @@ func rewriteList(label string, fset *token.FileSet, list []ast.Stmt) []ast.Stmt 
 }
 
 func main() {
-	if len(os.Args) != 4 {
-		fmt.Fprintln(os.Stderr, "usage: autoyield <label> <in.go> <out.go>")
+	names := flag.String("names", "atomic", "atomic | lock")
+	skip := flag.String("skip", "", "comma-separated function names to leave alone")
+	flag.Parse()
+	if flag.NArg() != 3 {
+		fmt.Fprintln(os.Stderr, "usage: autoyield [-names atomic|lock] [-skip f1,f2] <label> <in.go> <out.go>")
 		os.Exit(2)
 	}
-	label, in, outPath := os.Args[1], os.Args[2], os.Args[3]
+	if *names == "lock" {
+		atomicNames = lockNames
+	}
+	skipped := map[string]bool{}
+	for _, f := range strings.Split(*skip, ",") {
+		if f != "" {
+			skipped[f] = true
+		}
+	}
+	label, in, outPath := flag.Arg(0), flag.Arg(1), flag.Arg(2)
 	fset := token.NewFileSet()
 	f, err := parser.ParseFile(fset, in, nil, parser.ParseComments)
 	if err != nil {
@@ -108,6 +129,10 @@ func main() {
 	}
 	ast.Inspect(f, func(n ast.Node) bool {
 		switch b := n.(type) {
+		case *ast.FuncDecl:
+			if skipped[b.Name.Name] {
+				return false
+			}
 		case *ast.BlockStmt:
 			b.List = rewriteList(label, fset, b.List)
 		case *ast.CaseClause:
